@@ -219,6 +219,9 @@ package contractcourt
 //@   site call abandonForwards nth 1: assert arg(htlcs) == cancelBreachedHTLCs && arg(htlcs) == ret(NewSet, 1)
 //@   site call NewSet nth 1: assert contractResolutions.BreachResolution != nil
 //@   site call abandonForwards nth 2: assert contractResolutions.BreachResolution == nil && arg(htlcs) == ret(NewSet, 2) && ret(failIncomingDust) == nil
+//@   // the step recomputes the actions for the commitment that confirmed; offered HTLCs that are dust THERE must be failed back too
+//@   // (the step cannot assume StateDefault saw the same commitment): necessary condition - nothing is left in the fail-dust set
+//@   site call abandonForwards nth 2 as confirmed-commit-dust-is-failed-back: assert len(htlcActions[HtlcFailDustAction]) == 0
 //@   site call failIncomingDust: assert contractResolutions.BreachResolution == nil && arg(incomingDustHTLCs) == htlcActions[HtlcIncomingDustFinalAction]
 //@   site call Add: assert htlcSetKey.IsRemote && !htlc.Incoming && arg(1) == htlc.HtlcIndex && arg(0) == cancelBreachedHTLCs
 //@   site call prepContractResolutions: assert arg(2) == triggerHeight && arg(3) == retn(constructChainActions, 0, 1) &&
